@@ -1099,3 +1099,209 @@ theorem Rules.eq_iff_ext {a b : Rules} (ha : Rules.NodupKeys a) (hb : Rules.Nodu
     exact ⟨fun r v hv => by rw [← h r]; exact hv, fun r v hv => by rw [h r]; exact hv⟩
 
 end Gimli.Unwind
+
+namespace Gimli.Spec.Unwind
+open Gimli Gimli.Cfi Gimli.Unwind
+
+/-- the errors a capacity-instrumented step can raise -/
+def IsStepError (e : Err) : Prop := IsInvalid e ∨ e = .rStackFull ∨ e = .rTooManyRegisterRules
+
+theorem stepB_error_kinds {p : Params} {R N : Cap} {s : State} {i : Instr} {e : Err}
+    (h : stepB p R N s i = .error e) : IsStepError e := by
+  unfold stepB at h
+  cases hs : step p s i with
+  | error e' =>
+    rw [hs] at h
+    cases h
+    exact Or.inl (step_error_invalid hs)
+  | ok q =>
+    obtain ⟨s1, r1⟩ := q
+    rw [hs] at h
+    simp only at h
+    split at h
+    · cases h; exact Or.inr (Or.inl rfl)
+    · split at h
+      · cases h; exact Or.inr (Or.inr rfl)
+      · cases h
+
+theorem exec_error_kinds (p : Params) (R N : Cap) (endAddr : Nat) (is : List Instr) (bad : Option Err) :
+    ∀ (s : State) (e : Err), (exec p R N endAddr s is bad).2 = .error e → IsStepError e ∨ bad = some e := by
+  induction is with
+  | nil =>
+    intro s e h
+    cases bad with
+    | none => simp [exec] at h
+    | some e' => simp only [exec] at h; cases h; exact Or.inr rfl
+  | cons i is ih =>
+    intro s e h
+    rw [exec] at h
+    cases hB : stepB p R N s i with
+    | error e' => rw [hB] at h; cases h; exact Or.inl (stepB_error_kinds hB)
+    | ok q =>
+      obtain ⟨s1, r1⟩ := q
+      rw [hB] at h
+      cases r1 with
+      | none => exact ih _ _ h
+      | some row => exact ih _ _ h
+
+/-- every way a Spec table can fail: an invalid instruction, a storage limit, or an undecodable
+instruction at the end of the CIE's or the FDE's stream -/
+theorem table_error_kinds (p : Params) (R N : Cap) (cie fde : List Instr) (cieBad fdeBad : Option Err)
+    (initial len : Nat) (e : Err) (h : (table p R N cie cieBad fde fdeBad initial len).2 = .error e) :
+    IsStepError e ∨ cieBad = some e ∨ fdeBad = some e := by
+  unfold table at h
+  simp only at h
+  cases h1 : (exec p R N 0 { loc := 0, cur := RuleSet.initial, stack := [], init := none } cie cieBad).2 with
+  | error e' =>
+    rw [h1] at h
+    cases h
+    rcases exec_error_kinds p R N 0 cie cieBad _ _ h1 with h | h
+    · exact Or.inl h
+    · exact Or.inr (Or.inl h)
+  | ok s1 =>
+    rw [h1] at h
+    simp only at h
+    split at h
+    · cases h; exact Or.inl (Or.inr (Or.inl rfl))
+    · cases h2 : (exec p R N (fdeEnd p initial len) { s1 with loc := initial, init := some s1.cur.regs } fde fdeBad).2 with
+      | error e' =>
+        rw [h2] at h
+        simp only [Except.map] at h
+        cases h
+        rcases exec_error_kinds p R N _ fde fdeBad _ _ h2 with h | h
+        · exact Or.inl h
+        · exact Or.inr (Or.inr h)
+      | ok s' => rw [h2] at h; simp [Except.map] at h
+
+/-- `remember_state` then `restore_state` is the identity on rule sets -/
+theorem remember_restore (p : Params) (s : State) :
+    ∃ s1, step p s .rememberState = .ok (s1, none) ∧ step p s1 .restoreState = .ok (s, none) :=
+  ⟨{ s with stack := s.cur :: s.stack }, rfl, rfl⟩
+
+/-- `DW_CFA_restore r` in an FDE puts the column back to what the CIE left, whatever happened since -/
+theorem restore_is_initial (p : Params) (s : State) (im : RegMap) (r : Reg) (h : s.init = some im) :
+    ∃ s1, step p s (.restore r) = .ok (s1, none) ∧ s1.cur.regs r = im r ∧
+      (∀ x, x ≠ r → s1.cur.regs x = s.cur.regs x) ∧ s1.cur.cfa = s.cur.cfa := by
+  refine ⟨setReg s r (im r), by simp [step, h], by simp [setReg, RegMap.update], ?_, rfl⟩
+  intro x hx
+  simp [setReg, RegMap.update, hx]
+
+end Gimli.Spec.Unwind
+
+namespace Gimli.Spec.Unwind
+open Gimli Gimli.Cfi Gimli.Unwind
+
+/-- capacity order: whatever fits in `c` fits in `c'` -/
+def CapLe (c c' : Cap) : Prop := ∀ n, exceeds c' n = true → exceeds c n = true
+
+theorem CapLe.none (c : Cap) : CapLe c none := by
+  intro n h; simp [exceeds] at h
+
+theorem CapLe.some {a b : Nat} (h : a ≤ b) : CapLe (some a) (some b) := by
+  intro n hn
+  simp only [exceeds, decide_eq_true_eq] at hn ⊢
+  omega
+
+theorem stepB_mono {p : Params} {R N R' N' : Cap} (hR : CapLe R R') (hN : CapLe N N') {s : State} {i : Instr}
+    {r : State × Option TableRow} (h : stepB p R N s i = .ok r) : stepB p R' N' s i = .ok r := by
+  unfold stepB at h ⊢
+  cases hs : step p s i with
+  | error e => rw [hs] at h; cases h
+  | ok q =>
+    obtain ⟨s1, r1⟩ := q
+    rw [hs] at h
+    simp only at h ⊢
+    by_cases hx : exceeds R (rowsNeeded s1) = true
+    · simp [hx] at h
+    · by_cases hn : exceeds N (ruleCount s1.cur.regs) = true
+      · simp [hx, hn] at h
+      · have hx' : ¬ exceeds R' (rowsNeeded s1) = true := fun h' => hx (hR _ h')
+        have hn' : ¬ exceeds N' (ruleCount s1.cur.regs) = true := fun h' => hn (hN _ h')
+        simp only [hx, hn, hx', hn'] at h ⊢
+        exact h
+
+theorem exec_mono (p : Params) {R N R' N' : Cap} (hR : CapLe R R') (hN : CapLe N N') (endAddr : Nat)
+    (is : List Instr) (bad : Option Err) :
+    ∀ (s s' : State), (exec p R N endAddr s is bad).2 = .ok s' →
+      exec p R' N' endAddr s is bad = exec p R N endAddr s is bad := by
+  induction is with
+  | nil => intro s s' _; cases bad <;> rfl
+  | cons i is ih =>
+    intro s s' h
+    rw [exec] at h ⊢
+    rw [exec]
+    cases hB : stepB p R N s i with
+    | error e => rw [hB] at h; cases h
+    | ok q =>
+      rw [hB] at h
+      rw [stepB_mono hR hN hB]
+      obtain ⟨s1, r1⟩ := q
+      cases r1 with
+      | none => exact ih s1 s' h
+      | some row => simp only at h ⊢; rw [ih s1 s' h]
+
+/-- **More storage never changes a table that fits**: if the Spec table completes within
+capacities `(R, N)`, it is the same table within any larger capacities -/
+theorem table_mono (p : Params) {R N R' N' : Cap} (hR : CapLe R R') (hN : CapLe N N')
+    (cie fde : List Instr) (cieBad fdeBad : Option Err) (initial len : Nat)
+    (h : (table p R N cie cieBad fde fdeBad initial len).2 = .ok ()) :
+    table p R' N' cie cieBad fde fdeBad initial len = table p R N cie cieBad fde fdeBad initial len := by
+  unfold table at h ⊢
+  simp only at h ⊢
+  cases h1 : (exec p R N 0 { loc := 0, cur := RuleSet.initial, stack := [], init := none } cie cieBad).2 with
+  | error e => rw [h1] at h; cases h
+  | ok s1 =>
+    rw [h1] at h
+    rw [exec_mono p hR hN 0 cie cieBad _ s1 h1, h1]
+    simp only at h ⊢
+    by_cases hx : exceeds R (rowsNeeded { s1 with loc := initial, init := some s1.cur.regs }) = true
+    · simp [hx] at h
+    · have hx' : ¬ exceeds R' (rowsNeeded { s1 with loc := initial, init := some s1.cur.regs }) = true :=
+        fun h' => hx (hR _ h')
+      simp only [hx, hx'] at h ⊢
+      cases h2 : (exec p R N (fdeEnd p initial len) { s1 with loc := initial, init := some s1.cur.regs } fde fdeBad).2 with
+      | error e => rw [h2] at h; simp [Except.map] at h
+      | ok s2 => rw [exec_mono p hR hN _ fde fdeBad _ s2 h2]; simp [h2]
+
+end Gimli.Spec.Unwind
+
+namespace Gimli.Unwind
+open Gimli Gimli.Cfi Gimli.Spec.Unwind
+
+theorem storage_monotone_main (g : Cfg) (R' N' : Cap) (hsz : 1 ≤ g.addressSize ∧ g.addressSize ≤ 8)
+    (hR1 : g.R.fits 1) (hR : CapLe g.R R') (hN : CapLe g.N N')
+    (cie fde : List Instr) (cieBad fdeBad : Option Err) (initial len : Nat)
+    (hok : (unwind g cie (tailOf cieBad) fde (tailOf fdeBad) initial len).2 = .ok ()) :
+    (unwind { g with R := R', N := N' } cie (tailOf cieBad) fde (tailOf fdeBad) initial len).2 = .ok () ∧
+    ∃ rows : List TableRow,
+      RowsRel (unwind g cie (tailOf cieBad) fde (tailOf fdeBad) initial len).1 rows ∧
+      RowsRel (unwind { g with R := R', N := N' } cie (tailOf cieBad) fde (tailOf fdeBad) initial len).1 rows := by
+  obtain ⟨hrows, hfin⟩ := unwind_refines_main g hsz hR1 cie fde cieBad fdeBad initial len
+  have hR1' : Cap.fits R' 1 := by
+    rw [← exceeds_eq_false_iff]
+    cases hx : exceeds R' 1 with
+    | false => rfl
+    | true =>
+      have := hR 1 hx
+      rw [(exceeds_eq_false_iff g.R 1).mpr hR1] at this
+      cases this
+  obtain ⟨hrows', hfin'⟩ := unwind_refines_main { g with R := R', N := N' } hsz hR1' cie fde cieBad fdeBad initial len
+  have hp : ({ g with R := R', N := N' } : Cfg).params = g.params := rfl
+  simp only [hp] at hrows' hfin'
+  rw [hok] at hfin
+  have htab : (table g.params g.R g.N cie cieBad fde fdeBad initial len).2 = .ok () := by
+    cases ht : (table g.params g.R g.N cie cieBad fde fdeBad initial len).2 with
+    | ok u => rfl
+    | error e => rw [ht] at hfin; simp [FinalRel] at hfin
+  have hmono := table_mono g.params hR hN cie fde cieBad fdeBad initial len htab
+  rw [hmono] at hrows' hfin'
+  rw [htab] at hfin'
+  refine ⟨?_, _, hrows, hrows'⟩
+  generalize (unwind { g with R := R', N := N' } cie (tailOf cieBad) fde (tailOf fdeBad) initial len).2 = m at hfin'
+  cases m with
+  | ok u => rfl
+  | err e => simp [FinalRel] at hfin'
+  | panic w => simp [FinalRel] at hfin'
+  | diverge => simp [FinalRel] at hfin'
+
+end Gimli.Unwind
